@@ -272,7 +272,8 @@ class CFormatter(Formatter):
     def format_bp_array_processor_name_from_alias(self, t: Array, d: Alias) -> str:
         alias_name = self.format_alias_name(d)
         prefix = self.bp_processor_name_prefix()
-        return f"{prefix}Array{alias_name}"
+        # The underscore keeps the array of alias `X` apart from an alias named `ArrayX`.
+        return f"{prefix}Array_{alias_name}"
 
     def format_bp_message_field_descriptor_initer(self, t: Message) -> str:
         message_name = self.format_message_name(t)
@@ -308,7 +309,8 @@ class CFormatter(Formatter):
     def format_bp_array_json_formatter_name_from_alias(self, t: Array, d: Alias) -> str:
         alias_name = self.format_alias_name(d)
         prefix = self.bp_json_formatter_name_prefix()
-        return f"{prefix}Array{alias_name}"
+        # The underscore keeps the array of alias `X` apart from an alias named `ArrayX`.
+        return f"{prefix}Array_{alias_name}"
 
     ###################
     # Optimization Mode.
